@@ -83,7 +83,8 @@ def scan_trusted(text):
     pats = [(r'assume_specification[^\[]*\[([^\]]*)\]', 'assume_specification'), (r'#\[verifier::external_body\]\s*(?:pub\s+)?(?:broadcast\s+)?(?:proof\s+|spec\s+|exec\s+)?fn\s+(\w+)', 'external_body'),
             (r'\buninterp\s+spec\s+fn\s+(\w+)', 'uninterp'), (r'\bassume\s*\(([^;]*)\)\s*;', 'assume'), (r'\badmit\s*\(\s*\)', 'admit'),
             (r'#\[verifier::external_type_specification\][^;{]*?struct\s+(\w+)', 'external_type_specification'),
-            (r'#\[verifier::external\]\s*(?:pub\s+)?fn\s+(\w+)', 'external')]
+            (r'#\[verifier::external\]\s*(?:pub\s+)?fn\s+(\w+)', 'external'),
+            (r'#\[verifier::external_body\]\s*(?:pub\s+)?struct\s+(\w+)', 'external_body_struct')]
     for pat, kind in pats:
         for m in re.finditer(pat, text, re.S):
             g = m.group(1) if m.groups() else ''
